@@ -78,11 +78,16 @@ class PyBytesIO:
         self.closed = False
         PyBytesIO.instances.append(self)
         if initial:
-            self.write(initial)
+            if isinstance(initial, _BufferView):
+                initial = initial.owner.getvalue()
+            self.parts = list(initial) if isinstance(initial, list) else [initial]
+            self.at_end = False     # io.BytesIO(initial) starts at position 0: a write overwrites the head
 
     # -- write side: used while spooling.  Writing at the end (the only thing the pinned code does) appends the part
     # as it is (parts may be opaque); after a seek() the write is positional like the real file object's
     def write(self, part):
+        if isinstance(part, _BufferView):
+            part = part.owner.getvalue()
         if self.at_end:
             if isinstance(part, list):
                 self.parts.extend(part)
@@ -91,12 +96,38 @@ class PyBytesIO:
             return len(part)
         if not len(part):
             return 0
+        if not all(isinstance(p, (bytes, bytearray)) for p in self.parts + [part]):
+            return self._splice(part)
         data = self._flat()
         if self.pos > len(data):
             data = data + b"\0" * (self.pos - len(data))
         data = data[:self.pos] + bytes(part) + data[self.pos + len(part):]
         self.parts = [data]
         self.pos += len(part)
+        return len(part)
+
+    def _splice(self, part):
+        """positional write when parts are opaque: the same on the list of parts (a slice of a SizedPart is a SizedPart)"""
+        def sl(p, i, j):
+            return SizedPart(p.start + i, j - i) if isinstance(p, SizedPart) else p[i:j]
+        pos, end = self.pos, self.pos + len(part)
+        out, off = [], 0
+        for p in self.parts:
+            n = len(p)
+            if off < pos:
+                out.append(sl(p, 0, n if n < pos - off else pos - off))
+            off = off + n
+        if off < pos:
+            out.append(b"\0" * (pos - off))
+        out.append(part)
+        off = 0
+        for p in self.parts:
+            n = len(p)
+            if off + n > end:
+                out.append(sl(p, end - off if end > off else 0, n))
+            off = off + n
+        self.parts = [x for x in out if len(x)]
+        self.pos = end
         return len(part)
 
     def truncate(self, size=None):
@@ -146,6 +177,98 @@ class PyBytesIO:
     def close(self):
         self.closed = True
 
+    # -- the rest of the io.BytesIO interface (a correct reader may use any of it)
+    def read1(self, n=-1):
+        return self.read(n)
+
+    def readinto(self, buf):
+        r = self.read(len(buf))
+        buf[:len(r)] = r
+        return len(r)
+
+    def readline(self, limit=-1):
+        data = self._flat()
+        end = data.find(b"\n", self.pos)
+        end = len(data) if end < 0 else end + 1
+        if limit is not None and limit >= 0:
+            end = min(end, self.pos + limit)
+        r = data[self.pos:end]
+        self.pos += len(r)
+        return r
+
+    def readlines(self, hint=-1):
+        out = []
+        while True:
+            ln = self.readline()
+            if not ln:
+                return out
+            out.append(ln)
+
+    def __iter__(self):
+        return iter(self.readlines())
+
+    def getbuffer(self):
+        return _BufferView(self)
+
+    def flush(self):
+        pass
+
+    def seekable(self):
+        return True
+
+    def readable(self):
+        return True
+
+    def writable(self):
+        return True
+
+    def fileno(self):
+        if self.spooled:
+            return 99
+        import io
+        raise io.UnsupportedOperation("fileno")
+
+    def __enter__(self):
+        return self
+
+    def __exit__(self, *exc):
+        self.close()
+
+
+class _BufferView:
+    """what BytesIO.getbuffer() gives: length, slices, bytes() of the content as of now"""
+    def __init__(self, owner):
+        self.owner = owner
+
+    def _data(self):
+        return self.owner._flat()
+
+    def __len__(self):
+        return len(self._data())
+
+    nbytes = property(__len__)
+
+    def __getitem__(self, i):
+        return self._data()[i]
+
+    def __bytes__(self):
+        return bytes(self._data())
+
+    def tobytes(self):
+        return self._data()
+
+    def __eq__(self, other):
+        return self._data() == (other._data() if isinstance(other, _BufferView) else other)
+
+    def release(self):
+        pass
+
+    def __enter__(self):
+        return self
+
+    def __exit__(self, *exc):
+        pass
+
 
 def spool_file(*a, **kw):
     return PyBytesIO(spooled=True)
@@ -167,7 +290,8 @@ def validate_body_io():
     rnd = random.Random(7)
     for it in range(240):
         spooled = it % 2 == 1
-        real, stub = (tempfile.TemporaryFile() if spooled else io.BytesIO()), PyBytesIO(spooled=spooled)
+        init = bytes(rnd.randrange(97, 123) for _ in range(rnd.randint(1, 6))) if it % 6 == 0 else b""
+        real, stub = (tempfile.TemporaryFile() if spooled else io.BytesIO(init)), PyBytesIO(init, spooled=spooled)
         if spooled:
             real.getvalue = lambda real=real: _file_value(real)
         stub.instances.pop()
@@ -193,6 +317,8 @@ def validate_body_io():
                 if stub.at_end:
                     continue
                 ra, sa = real.truncate(), stub.truncate()
+            elif op == "getvalue" and rnd.random() < 0.3 and not spooled:
+                ra, sa = bytes(real.getbuffer()), bytes(stub.getbuffer())
             else:
                 ra, sa = real.getvalue(), stub.getvalue()
             assert ra == sa, ("PyBytesIO differs from io.BytesIO", op, ra, sa)
